@@ -11,6 +11,7 @@ import Gocc.Gen.Frontend
 import Gocc.Model.ValidateC
 import Gocc.Model.LexEquiv
 import Gocc.Model.ValidateV
+import Gocc.Spec.Recover
 /- Grammar-level ops of the model driver: decode a grammar line, run the generator models,
    print tables, scan and parse with them. -/
 namespace Gocc.Driver
@@ -441,7 +442,7 @@ def opValidate (a : Art) : String :=
         first := (List.range T.nts.length).flatMap fun k =>
           ((r.ctx.fs.get T.nts[k]!).filter (· != "empty")).map fun t => (k, tIdx t) }
     let b (x : Bool) : Nat := if x then 1 else 0
-    s!"safe={b (safe G T c && safeEnds T c)} complete={b (firstOk G fc && complete G T fc cla)} valid={b (validItems G T cla (genVCert G))} acts={b (kindsTotal T)} recover={b anyRec}"
+    s!"safe={b (safe G T c && safeEnds T c)} complete={b (firstOk G fc && complete G T fc cla)} valid={b (validItems G T cla (genVCert G))} acts={b (kindsTotal T)} recover={b anyRec} recwf={b (recWFb T ((T.terminals.idxOf? "error").getD 0))} noshifteof={b (noShiftEOFb T)}"
   | some (.error _) => "panic"
   | none => "nosyntax"
 
